@@ -261,7 +261,66 @@ Theorem C19_label_identifies_column_refuted :
 Proof. exact label_collisions. Qed.
 Print Assumptions C19_label_identifies_column_refuted.
 
+(* the table of prefixes and widths of the label writers (col_prefix, col_label): for a name that fits in the column
+   the label is the column's prefix followed by the object's name; no prefix contains a blank, none is longer than 11 *)
+Theorem C19_label_of_column : forall vname bname c,
+  let name := match col_object c with inl v => vname v | inr b => bname b end in
+  no_blank name -> (length (col_prefix c) + length name <= 21)%nat ->
+  col_label vname bname c = col_prefix c ++ name.
+Proof. exact col_label_short. Qed.
+Print Assumptions C19_label_of_column.
+
+(* ---- what is on disk ------------------------------------------------------------------------------- *)
+(* the lines of the trajectory model are exactly the lines sent through the (buffered) stream, which is synchronised
+   with the disk at the end of every calc() whose step is a multiple of the restart frequency *)
+Theorem C19_stream_carries_the_lines : forall rfreq its s,
+  blines (traj_bevents rfreq s its) = snd (traj_run s (map TCalc its)).
+Proof. exact traj_bevents_lines. Qed.
+Print Assumptions C19_stream_carries_the_lines.
+
+(* a crash at any later point (e2 arbitrary, including spills of the stream buffer): the disk holds every line written
+   before the last synchronisation, then a prefix of the later lines, in order *)
+Theorem C19_disk_after_crash : forall (L : Type) (e1 e2 : list (bevent L)),
+  exists kept lost, fst (buf_run [] [] (e1 ++ BSync :: e2)) = blines e1 ++ kept /\ blines e2 = kept ++ lost.
+Proof. intros L. exact disk_after_crash. Qed.
+Print Assumptions C19_disk_after_crash.
+
+(* ---- multicolumn grid files -------------------------------------------------------------------------- *)
+(* for every grid shape nx (any number of dimensions): the records are written for exactly the indices of the grid,
+   each once, in row-major order (last index fastest), prod nx of them; a blank line precedes exactly the records
+   whose last index is 0; each record carries the bin centres lower + width (i + 1/2) of its index; reading the file
+   back pairs every index with the values written for it *)
+Theorem C19_multicol_indices : forall nx,
+  NoDup (all_indices nx) /\ length (all_indices nx) = fold_right Nat.mul 1%nat nx /\
+  forall ix, In ix (all_indices nx) <-> Forall2 (fun i n => (i < n)%nat) ix nx.
+Proof. intros nx. split; [apply all_indices_nodup|]. split; [apply all_indices_length|apply all_indices_shape]. Qed.
+Print Assumptions C19_multicol_indices.
+
+Theorem C19_multicol_round_trip : forall (T : Type) (O : NumOps T) nx geom value,
+  read_multicol nx (write_multicol O nx geom value) = map (fun ix => (ix, value ix)) (all_indices nx).
+Proof. exact @multicol_round_trip. Qed.
+Print Assumptions C19_multicol_round_trip.
+
+(* ---- total force when the engine delivers forces one evaluation late ------------------------------ *)
+(* for every history of evaluations: the value of ft (the ft_ column) after an evaluation (rel, enabled) that follows
+   (rel', enabled', f') is f' - the force exerted at the PREVIOUS evaluation - exactly when rel > 0, the previous
+   evaluation was the previous or the same step, and the total-force calculation was on at both; otherwise unchanged *)
+Theorem C19_lagged_total_force_rule : forall (T : Type) (h : list (nat * bool * T)) (s : @lfstate T) rel' en' (f' : T) rel en (f : T),
+  lf_ft (lf_run s (h ++ [(rel', en', f'); (rel, en, f)])) =
+  if ((0 <? rel) && (rel - 1 <=? rel') && en' && en)%nat%bool then f'
+  else lf_ft (lf_run s (h ++ [(rel', en', f')])).
+Proof. intros T. exact (lagged_force_rule (T:=T)). Qed.
+Print Assumptions C19_lagged_total_force_rule.
+
 (* ---- the premises are satisfiable; the specification functions compute what they should ---------- *)
+Example C19_ex_multicol :
+  write_multicol Qops [2; 2]%nat [(0, 1); (10, 2)]%Q (fun ix => [inject_Z (Z.of_nat (length ix))]) =
+    [MBlank; MData [1 # 2; 11]%Q [2%Q]; MData [1 # 2; 13]%Q [2%Q]; MBlank; MData [3 # 2; 11]%Q [2%Q]; MData [3 # 2; 13]%Q [2%Q]].
+Proof. vm_compute. reflexivity. Qed.
+Example C19_ex_lagged :
+  map (fun n => lf_ft (lf_run (lf0 Qops) (firstn n [(0%nat, true, 5%Q); (1%nat, true, 7%Q); (2%nat, false, 9%Q); (3%nat, true, 11%Q); (4%nat, true, 13%Q)])))
+      [1; 2; 3; 4; 5]%nat = [0; 5; 5; 5; 11]%Q.
+Proof. vm_compute. reflexivity. Qed.
 Example C19_ex_label : no_blank [118; 95]%nat /\ label_token [118; 95]%nat [97; 98]%nat 21 = [118; 95; 97; 98]%nat.
 Proof. split; [repeat constructor; discriminate|vm_compute; reflexivity]. Qed.
 Example C19_ex_out :
